@@ -435,3 +435,74 @@ def screen_scenario(g, sid, ty, routine, corrupts, factored):
     lines.append("call screen %s%s" % (routine, arg))
     lines += ["destroy all", "ledger"]
     return {"id": sid, "lines": lines, "n": n}
+
+
+# ----------------------------------------------------------------------------- C19 lifecycles
+def lifecycle_scenario(g, sid, ty, life):
+    """one TLC-generated lifecycle (SluLife) as a harness script"""
+    r = g.r
+    cplx = is_cplx(ty)
+    n = r.randint(3, 6)
+    A = sweep_matrix(g, ty, n)
+    pattern = sorted(A)
+    fmt = r.choice(["NC", "NC", "NR"])
+    tune = g.tune(); tune[5] = r.choice([1, 1, 2, 30])
+    B = g.rhs_for(A, n, 2, cplx)
+
+    def vals(d):
+        return "newvals " + g.mat_lines(d, n, n, fmt, cplx)[3]
+    good = vals(A)
+    c0 = min(j for (_, j) in pattern)
+    sing = vals({k: ((0.0, 0.0) if k[1] == r.choice(range(n)) else v) for k, v in A.items()})
+    allzero_col = r.choice(range(n))
+    sing = vals({k: ((0.0, 0.0) if k[1] == allzero_col else v) for k, v in A.items()})
+    rhs = g.rhs_lines(B, n, 2, n, cplx)
+    est = query_estimate(n, n, len(A), tune[0], tune[5], DWORD[ty])
+    lines = ["tune " + " ".join(map(str, tune))] + g.mat_lines(A, n, n, fmt, cplx) + rhs
+    # a second, independent problem for calls that hand nothing to the caller
+    A2, _ = g.matrix(n, n, cplx, style="pow2")
+    lines += ["use 1"] + g.mat_lines(A2, n, n, "NC", cplx) + ["use 0"]
+    xo = lambda: {"default": 0, "ColPerm": r.choice([NATURAL, COLAMD, MMD_ATA, MMD_AT_PLUS_A]), "Equil": r.choice([0, 1]), "IterRefine": r.choice([0, 1]),
+                  "PivotGrowth": r.choice([0, 1]), "Cond": r.choice([0, 1]), "Trans": r.choice([0, 1]), "Fact": 0}
+    io = lambda: {"iludefault": 0, "ColPerm": r.choice([NATURAL, COLAMD]), "RowPerm": r.choice([0, 1]), "DropRule": r.choice([0, 9]), "Fact": 0}
+    for a in life:
+        if a in ("gssv", "gssv_singular"):
+            lines += [sing if a.endswith("singular") else good] + rhs + opt_lines({"default": 0, "ColPerm": r.choice(ORDERINGS[:4])}) + ["nowork", "call gssv"]
+        elif a in ("gssvx", "gssvx_singular"):
+            lines += [sing if a.endswith("singular") else good] + rhs + opt_lines(xo()) + gssvx_block(work=None)
+        elif a == "gssvx_userwork":
+            lines += [good] + rhs + opt_lines(xo()) + gssvx_block(work=(3 * est + 2000, r.choice([0, 4])))
+        elif a == "gssvx_shortwork":
+            lines += [good] + rhs + opt_lines(xo()) + gssvx_block(work=(4 * r.randint(1, max(2, est // 6)), r.choice([0, 4]))) + ["destroy LUauto", "nowork"]
+        elif a == "gssvx_failalloc":
+            lines += [good] + rhs + opt_lines(xo()) + ["failalloc @expand 0 %d 1" % r.randint(1, 5)] + gssvx_block(work=None) + ["nofail", "destroy LUauto"]
+        elif a in ("gstrf", "gstrf_singular"):
+            lines += [sing if a.endswith("singular") else good] + opt_lines({"default": 0, "ColPerm": r.choice([NATURAL, COLAMD])}) + ["nowork", "call gstrf"]
+        elif a == "gsisx":
+            lines += [good] + rhs + opt_lines(io()) + gssvx_block(work=None, fn="gsisx")
+        elif a == "gsisx_shortwork":
+            lines += [good] + rhs + opt_lines(io()) + gssvx_block(work=(4 * r.randint(1, max(2, est // 6)), 0), fn="gsisx") + ["destroy LUauto", "nowork"]
+        elif a == "samepattern":
+            lines += ["requireok", "destroy LU", vals({k: g.value("pow2", cplx) for k in pattern})] + rhs + opt_lines({"Fact": 1}) + gssvx_block(work=None)
+        elif a in ("samerowperm", "samerowperm_singular"):
+            lines += ["requireok", sing if a.endswith("singular") else vals({k: (v[0] * 2, v[1] * 2) for k, v in A.items()})] + rhs + opt_lines({"Fact": 2}) + gssvx_block(work=None)
+        elif a == "factored":
+            lines += ["requireok"] + rhs + opt_lines({"Fact": 3, "Trans": r.choice([0, 1])}) + ["call gssvx"]
+        elif a == "gstrs":
+            lines += ["requireok"] + rhs + ["call gstrs %d" % r.choice([0, 1])]
+        elif a == "gscon":
+            lines += ["requireok", "call gscon %s" % r.choice(["1", "I"])]
+        elif a == "query":
+            lines += rhs + opt_lines({"Fact": 0}) + gssvx_block(work=(-1, 0)) + ["nowork"]
+        elif a == "order":
+            lines += ["use 1"] + opt_lines({"default": 0, "Sym": r.choice([0, 1])}) + ["call order %d" % r.choice(ORDERINGS[:4]), "use 0"]
+        elif a == "equ":
+            lines += ["use 1", "call equ", "use 0"]
+        elif a == "rejected":
+            lines += rhs + ["corrupt " + r.choice(["A.dtype", "B.lda", "opt.Trans", "lwork"]), "call screen gssvx"]
+        elif a == "destroyLU":
+            lines += ["destroy LU"]
+        elif a == "destroyLUuser":
+            lines += ["destroy LUuser", "nowork"]
+    lines += ["destroy LUauto", "use 1", "destroy all", "use 0", "destroy all", "ledger"]
+    return {"id": sid, "lines": lines, "n": n}
